@@ -226,3 +226,130 @@ Theorem range_apply_accepts_cover : forall nl nh hl hh,
   covers nl nh hl hh -> range_apply_reject nl nh hl hh = false.
 Proof. exact range_apply_accepts_cover_l. Qed.
 Print Assumptions range_apply_accepts_cover.
+
+(* 7. parameter chains: the range _vnacal_get_parameter_frange computes and the accept / refuse
+      decision of vnacal_new_add_* / vnacal_new_set_frequency_vector built on it
+      (Interp/FrangeModel.v; comparison operators regenerated from the C text) *)
+Require Import LV.Interp.FrangeBase LV.Interp.FrangeModel LV.Interp.FrangeProofs LV.Interp.FrangeExamples.
+Require Import Permutation.
+
+(*    the walk ends at the scalar / vector parameter at the end of the chain, whatever the length
+      and mixture of unknown and correlated parameters in between *)
+Theorem frange_walk_is_chain_end : forall p, walk p = base_range (chain_end p).
+Proof. exact walk_chain_end_l. Qed.
+Print Assumptions frange_walk_is_chain_end.
+
+(*    a correlated parameter with a multi-point sigma grid: lower end = max of the lower ends,
+      upper end = min of the upper ends (intersection with the grid) *)
+Theorem frange_correlated_is_intersection : forall g o,
+  frange (PCorrelated (Some g) o) = inter (walk o) (Fin (firstq g), Fin (lastq g)).
+Proof. exact frange_correlated_is_intersection_l. Qed.
+Print Assumptions frange_correlated_is_intersection.
+
+Theorem frange_plain : forall p, (forall g o, p <> PCorrelated (Some g) o) -> frange p = walk p.
+Proof. exact frange_plain_l. Qed.
+Print Assumptions frange_plain.
+
+(*    every chain: the decision at add time is the decision on the intersection of everything the
+      solver reads for p - the vector at the end of the chain and the sigma grid of every
+      correlated parameter that becomes a member of the calibration *)
+Theorem chain_decision_is_intersection : forall nl nh p,
+  add_ok nl nh p = negb (rej nl nh (inter_all (consumed p))).
+Proof. exact add_ok_intersection_l. Qed.
+Print Assumptions chain_decision_is_intersection.
+
+(*    a band that misses ANY of them by >= 5 % at the low end or at the high end is refused *)
+Theorem chain_refuses_any_miss : forall nl nh p r, In r (consumed p) ->
+  (exists lo, fst r = Fin lo /\ miss_low nl lo) \/ (exists hi, snd r = Fin hi /\ miss_high nh hi) ->
+  add_ok nl nh p = false.
+Proof. exact add_refuses_any_miss_l. Qed.
+Print Assumptions chain_refuses_any_miss.
+
+(*    a band covered by all of them is accepted *)
+Theorem chain_accepts_all_cover : forall nl nh p,
+  (forall r, In r (consumed p) -> covers_x nl nh r) -> add_ok nl nh p = true.
+Proof. exact add_accepts_all_cover_l. Qed.
+Print Assumptions chain_accepts_all_cover.
+
+(*    add after set_frequency_vector (the parameter, then its correlates) and add before
+      (set_frequency_vector walks the hash in whatever order) decide alike *)
+Theorem chain_orders_agree : forall nl nh p members,
+  Permutation members (hash_members p) -> set_ok nl nh members = add_ok nl nh p.
+Proof. exact orders_agree_l. Qed.
+Print Assumptions chain_orders_agree.
+
+(*    sigma_frequency_vector == NULL (grid borrowed from the vector at the end of the chain) and
+      single sigma values do not restrict the range *)
+Theorem chain_borrowed_grid_no_restriction : forall min_dx other n sigma p,
+  mk_correlated min_dx other None n sigma = Some p -> (1 < n)%Z ->
+  frange p = walk other /\ exists fs, chain_end other = PVector fs /\ p = PCorrelated (Some fs) other.
+Proof. exact borrowed_grid_no_restriction_l. Qed.
+Print Assumptions chain_borrowed_grid_no_restriction.
+
+Theorem chain_one_point_no_restriction : forall min_dx other sfv sigma p,
+  mk_correlated min_dx other sfv 1 sigma = Some p -> p = PCorrelated None other /\ frange p = walk other.
+Proof. exact one_point_no_restriction_l. Qed.
+Print Assumptions chain_one_point_no_restriction.
+
+(*    non-vacuity: concrete chains (three correlated parameters in a row; correlated - unknown -
+      correlated - vector; scalar correlate), both verdicts, both orders *)
+Theorem chain_examples :
+  add_ok 3 8 exKK = true /\ add_ok 2 8 exKK = false /\ add_ok 3 10 exKK = false /\
+  frange exK1 = (Fin 2, Fin 9) /\ (forall r, In r (consumed exKK) -> covers_x 3 8 r) /\
+  In (Fin 2, Fin 12) (consumed exKK) /\ miss_high 14 12 /\
+  Permutation (rev (hash_members exKK)) (hash_members exKK).
+Proof.
+  exact (conj (proj1 (proj2 (proj2 (proj2 ex_decisions))))
+        (conj (proj1 (proj2 (proj2 (proj2 (proj2 ex_decisions)))))
+        (conj (proj1 (proj2 (proj2 (proj2 (proj2 (proj2 ex_decisions))))))
+        (conj (proj1 ex_frange) (conj ex_cover_hyp
+        (conj (proj1 ex_refuse_hyp) (conj (proj1 (proj2 ex_refuse_hyp)) ex_perm))))))).
+Qed.
+Print Assumptions chain_examples.
+
+(* 8. sigma of a correlated parameter as a function of frequency (Interp/SigmaSplineModel.v) *)
+Require Import LV.Interp.SigmaSplineModel LV.Interp.SigmaSplineProofs LV.Interp.SigmaSplineExamples.
+
+Theorem sigma_one_point : forall xs ys cs x, sigma_np ys = 1 -> sigma_eval xs ys cs x = Some (gq ys 0).
+Proof. exact sigma_one_point_l. Qed.
+Print Assumptions sigma_one_point.
+
+Theorem sigma_at_knot : forall xs ys, 2 <= sigma_np ys ->
+  (forall i, 0 <= i < sigma_np ys - 1 -> (gq xs i < gq xs (i + 1))%Qc) ->
+  forall cs k, 0 <= k < sigma_np ys -> sigma_eval xs ys cs (gq xs k) = Some (gq ys k).
+Proof. exact sigma_at_knot_l. Qed.
+Print Assumptions sigma_at_knot.
+
+Theorem sigma_linear : forall min_dx xs ys p q, 2 <= sigma_np ys -> (0 < min_dx)%Qc ->
+  (forall i, 0 <= i < sigma_np ys - 1 -> (min_dx <= gq xs (i + 1) - gq xs i)%Qc) ->
+  (forall i, 0 <= i < sigma_np ys -> gq ys i = (p + q * gq xs i)%Qc) ->
+  exists cs, sigma_make min_dx xs ys = Some cs /\
+             forall x, sigma_eval xs ys cs x = Some (p + q * x)%Qc.
+Proof. exact sigma_linear_l. Qed.
+Print Assumptions sigma_linear.
+
+(*    exactly two points: the chord through them at every frequency, whatever the two values *)
+Theorem sigma_two_points : forall min_dx x0 x1 y0 y1, (0 < min_dx)%Qc -> (min_dx <= x1 - x0)%Qc ->
+  exists cs, sigma_make min_dx [x0; x1] [y0; y1] = Some cs /\
+             forall x, sigma_eval [x0; x1] [y0; y1] cs x =
+                       Some (y0 + (y1 - y0) / (x1 - x0) * (x - x0))%Qc.
+Proof. exact sigma_two_points_l. Qed.
+Print Assumptions sigma_two_points.
+
+Theorem sigma_make_ok : forall min_dx xs ys, 2 <= sigma_np ys ->
+  (forall i, 0 <= i < sigma_np ys - 1 -> (min_dx <= gq xs (i + 1) - gq xs i)%Qc) ->
+  exists cs, sigma_make min_dx xs ys = Some cs.
+Proof. exact sigma_make_ok_l. Qed.
+Print Assumptions sigma_make_ok.
+
+Theorem sigma_history_free : forall min_dx xs ys before q l1 l2,
+  sigma_interp min_dx xs ys (before ++ [q]) = Some l1 ->
+  sigma_interp min_dx xs ys [q] = Some l2 -> last l1 None = last l2 None.
+Proof. exact sigma_history_free_l. Qed.
+Print Assumptions sigma_history_free.
+
+Theorem sigma_examples :
+  sigma_interp mdx [qz 1; qz 3] [qz 5; qz 9] [qz 1; qz 2; qz 3; qz 0; qz 4; Q2Qc (3 # 2)] =
+  Some [Some (qz 5); Some (qz 7); Some (qz 9); Some (qz 3); Some (qz 11); Some (qz 6)].
+Proof. exact ex_sigma_two_points. Qed.
+Print Assumptions sigma_examples.
